@@ -238,6 +238,14 @@ def eval_case(ctx: Ctx, c: dict):
                 wt = dns.name.Name(want).to_text() if wf(want) else None
                 if wt is not None and st != "ok " + wt:
                     ctx.fail("C01/to_styled_text/relativity", f"Name({full!r}).to_styled_text(origin={base!r}, relativize={rel}) -> {st[:120]}, expected {wt[:120]!r}", rep)
+                if wt is not None:
+                    # omit_final_dot drops only the last dot of an absolute non-root result; a relativized result is printed whole
+                    wabs = bool(want) and want[-1] == b""
+                    wto = wt[:-1] if (wabs and len(want) > 1) else wt
+                    sto, _ = outcome(lambda: dns.name.Name(full).to_styled_text(dns.name.NameStyle(omit_final_dot=True, origin=B, relativize=rel)), lambda x: x)
+                    if sto != "ok " + wto:
+                        ctx.fail("C01/to_styled_text/omit_final_dot-with-origin", f"Name({full!r}).to_styled_text(omit_final_dot=True, origin={base!r}, relativize={rel}) -> {sto[:120]}, expected {wto[:120]!r}", rep)
+                    ctx.count("text.styled.omit+origin." + ("rel" if not wabs else "abs"))
         for variant in ("omit", "str", "copy", "pickle", "canon"):
             import copy as _copy
             import pickle as _pickle
